@@ -25,10 +25,10 @@ PROPS = {
                  dict(engine="framer", pkg="pkg/framer", test="TestVerifFramer", n_quick=300, n_thorough=3000),
                  dict(engine="pkt", pkg=NETC, test="TestVerifPkt", n_quick=250, n_thorough=2000),
                  dict(engine="link", pkg=NETC, test="TestVerifLink", n_quick=10, n_thorough=150)],
-        corr_ops={"wire": ["enc", "dec"], "framer": ["frame", "ops"], "pkt": ["handle", "walk"], "link": ["send"]},
+        corr_ops={"wire": ["enc", "dec"], "framer": ["frame", "ops"], "pkt": ["handle", "walk"], "link": ["send", "localburst"]},
         facts=["wire_min_len", "wire_from_off", "wire_to_off", "wire_fsvc_off", "wire_tsvc_off", "wire_data_off",
                "wire_ttl_idx", "wire_svc_len", "wire_enc_header", "wire_enc_order", "wire_hash_endian",
-               "frame_len_bytes", "frame_endian", "frame_get", "dispatch_key"],
+               "frame_len_bytes", "frame_endian", "frame_get", "dispatch_key", "send_local_copy"],
         trusted=["highwayhash: injective on the names in play (64-bit collisions assumed away)",
                  "Go channels/maps as used by handleMessageData (registry lookup, channel send)",
                  "the MTU is advertised, not enforced by the code: payload <= MTU is the generator's bound"],
